@@ -368,6 +368,7 @@ impl SvgElement {
 //@ - old(self).name@ != "use"@ ==> r is Ok && final(self).attrs@ == old(self).attrs@.insert("x"@, fstr_spec(val(x))).insert("y"@, fstr_spec(val(y)))     @@C09.dir.place_at
 //@ - old(self).name@ == "use"@ && r is Ok && target_bbox(*old(self), *ctx)->Some_0 is Some ==> ({ let tb = target_bbox(*old(self), *ctx)->Some_0->Some_0;
 //@       final(self).attrs@ == old(self).attrs@.insert("x"@, fstr_spec(val(x) - val(tb.x1))).insert("y"@, fstr_spec(val(y) - val(tb.y1))) })     @@C09.dir.place_at.use
+//@ - old(self).name@ == "use"@ && target_bbox(*old(self), *ctx) is Some && target_bbox(*old(self), *ctx)->Some_0 is None ==> r is Err     @@C10.use.placement_needs_target_box @@C09.use.placement_needs_target_box
 //@end
 
 // the placement arithmetic of eval_rel_position: from the referenced box, the direction, the
